@@ -13,7 +13,7 @@ Definition wf_ctype (c : color_type) (d : Z) : Prop :=
   match c with
   | Gray (Some k) => 0 <= k < 2 ^ d
   | RGB (Some (r, g, b)) => 0 <= r < 2 ^ d /\ 0 <= g < 2 ^ d /\ 0 <= b < 2 ^ d
-  | Indexed pal => Forall rgba8_ok pal
+  | Indexed pal => Forall rgba8_ok pal /\ (length pal <= 256)%nat
   | _ => True
   end.
 
@@ -335,26 +335,27 @@ Qed.
 Lemma build_palette_spec pixels : forall set rev_data pmap raw,
   snd set = length (fst set) -> (snd set <= 256)%nat ->
   build_palette list_Z_eqb pixels set rev_data = Some (pmap, raw) ->
-  exists idxs more, raw = rev rev_data ++ idxs /\ pmap = rev (fst set) ++ more /\ (forall x, In x more -> In x pixels) /\
+  exists idxs more, raw = rev rev_data ++ idxs /\ pmap = rev (fst set) ++ more /\ (forall x, In x more -> In x pixels) /\ (length pmap <= 256)%nat /\
     Forall2 (fun px i => nth_error pmap (Z.to_nat i) = Some px /\ 0 <= i < 256) pixels idxs.
 Proof.
   induction pixels as [|px t IH]; intros [items n] rev_data pmap raw Hn Hle H; cbn [build_palette fst snd] in *.
-  - injection H as <- <-. exists [], []. rewrite !app_nil_r. repeat split; [intros ? []|constructor].
+  - injection H as <- <-. exists [], []. rewrite !app_nil_r. repeat split; [intros ? []|rewrite rev_length; lia|constructor].
   - unfold insert_full in H. destruct (index_of list_Z_eqb px items 0) as [j|] eqn:Ei.
     + destruct (index_of_spec _ _ _ _ Ei) as [_ Hnth]. rewrite Nat.sub_0_r in Hnth.
       assert (Hj : (j < length items)%nat) by (apply nth_error_Some; congruence).
       destruct (Nat.eqb_spec (n - 1 - j) 256) as [|Hne]; [discriminate|].
-      destruct (IH (items, n) _ _ _ Hn Hle H) as (idxs & more & Hraw & Hpm & Hin & HF). cbn [fst] in Hpm.
-      exists (Z.of_nat (n - 1 - j) :: idxs), more. split; [|split; [exact Hpm|split; [intros x Hx; right; auto|]]].
+      destruct (IH (items, n) _ _ _ Hn Hle H) as (idxs & more & Hraw & Hpm & Hin & Hlen & HF). cbn [fst] in Hpm.
+      exists (Z.of_nat (n - 1 - j) :: idxs), more. split; [|split; [exact Hpm|split; [intros x Hx; right; auto|split; [exact Hlen|]]]].
       * rewrite Hraw. cbn [rev]. rewrite <- app_assoc. reflexivity.
       * constructor; [|exact HF]. rewrite Nat2Z.id. split; [|lia].
         rewrite Hpm, nth_error_app1 by (rewrite rev_length; lia). rewrite Hn, nth_error_rev by lia. exact Hnth.
     + destruct (Nat.eqb_spec n 256) as [|Hne]; [discriminate|].
-      destruct (IH (px :: items, S n) _ _ _ ltac:(cbn; lia) ltac:(cbn; lia) H) as (idxs & more & Hraw & Hpm & Hin & HF). cbn [fst rev] in Hpm.
-      exists (Z.of_nat n :: idxs), (px :: more). split; [|split; [|split]].
+      destruct (IH (px :: items, S n) _ _ _ ltac:(cbn; lia) ltac:(cbn; lia) H) as (idxs & more & Hraw & Hpm & Hin & Hlen & HF). cbn [fst rev] in Hpm.
+      exists (Z.of_nat n :: idxs), (px :: more). split; [|split; [|split; [|split]]].
       * rewrite Hraw. cbn [rev]. rewrite <- app_assoc. reflexivity.
       * rewrite Hpm, <- app_assoc. reflexivity.
       * intros x [<-|Hx]; [left; reflexivity|right; auto].
+      * exact Hlen.
       * constructor; [|exact HF]. rewrite Nat2Z.id. split; [|lia].
         rewrite Hpm, <- app_assoc, nth_error_app2 by (rewrite rev_length; lia). rewrite rev_length, Hn, Nat.sub_diag. reflexivity.
 Qed.
@@ -444,7 +445,7 @@ Proof.
   set (B := Z.to_nat (channels img)) in *.
   set (pixels := chunks_exact B (data img)) in *.
   destruct (build_palette list_Z_eqb pixels ([], 0%nat) []) as [[pmap raw]|] eqn:Ebp; [|discriminate].
-  destruct (build_palette_spec pixels ([], 0%nat) [] pmap raw eq_refl ltac:(cbn; lia) Ebp) as (idxs & more & Hraw & Hpm & Hin & HF).
+  destruct (build_palette_spec pixels ([], 0%nat) [] pmap raw eq_refl ltac:(cbn; lia) Ebp) as (idxs & more & Hraw & Hpm & Hin & Hplen & HF).
   cbn [rev fst app] in Hraw, Hpm. subst raw more.
   assert (Hpal : exists palette, img' = {| hdr := with_ctype (hdr img) (Indexed palette); data := idxs |} /\ palette = map (pal_entry (ctype (hdr img))) pmap).
   { injection Hred as <-. eexists. split; [reflexivity|]. destruct (ctype (hdr img)); try discriminate; reflexivity. }
@@ -464,7 +465,7 @@ Proof.
       apply Forall_forall. intros px Hpx. apply (bytes_ok_chunk B (data img)); [exact Hok|exact Hpx].
   - split; cbn [data hdr ctype depth with_ctype].
     + unfold bytes_ok. eapply Forall_impl; [|exact Hidx]. intros i Hi. exact Hi.
-    + rewrite Hpalette. apply Forall_forall. intros e He. apply in_map_iff in He. destruct He as [px [<- Hpx]].
+    + rewrite Hpalette. split; [|rewrite map_length; exact Hplen]. apply Forall_forall. intros e He. apply in_map_iff in He. destruct He as [px [<- Hpx]].
       apply pal_entry_ok. apply (bytes_ok_chunk B (data img)); [exact Hok|apply Hin; exact Hpx].
 Qed.
 
@@ -530,7 +531,7 @@ Proof.
                  (if is_g then [bl] else [r; g; bl]) ++ (if has_a then [a] else [])).
   assert (Hconv_len : forall b, length (conv b) = Z.to_nat (channels_per_pixel ct)).
   { intros b. unfold conv, ct. destruct (nth (Z.to_nat b) pal (0, 0, 0, 255)) as [[[r g] bl] a]. destruct is_g, has_a; reflexivity. }
-  cbn [wf_ctype] in Hwf.
+  cbn [wf_ctype] in Hwf. destruct Hwf as [Hwf Hpallen].
   assert (Hconv_ok : forall b, bytes_ok (conv b)).
   { intros b. unfold conv. destruct (nth_error pal (Z.to_nat b)) as [e|] eqn:En.
     - rewrite (nth_error_nth _ _ _ En). pose proof (rgba8_in _ _ _ Hwf En) as He. destruct e as [[[r g] bl] a]. destruct He as (? & ? & ? & ?).
